@@ -116,7 +116,7 @@ Quiescent == \A p \in Procs : (~HasOp(p) /\ pc[p] = "idle") \/ Asleep(p)
 OpDone(o) == \E p \in Procs : \E i \in 1..Len(Script[p + 1]) : Script[p + 1][i].op = o /\ i < opi[p] /\ (i + 1 < opi[p] \/ pc[p] = "idle")
 Cancelled == OpDone("cancel")
 
-PollBusy(s) == \E p \in Procs : pc[p] # "idle" /\ reg[p].op \in {"poll", "drop"} /\ reg[p].sid = s
+PollBusy(s) == \E p \in Procs : pc[p] # "idle" /\ reg[p].op \in {"poll", "poll2", "drop"} /\ reg[p].sid = s
 Stream(s) == got[s] \o Q(s)                 \* what listener s has yielded and what is waiting for it
 Producer(v) == v \div 10
 
